@@ -1,4 +1,5 @@
 import RP.Lemmas.C01.Lift
+import RP.Lemmas.C01.Native
 /-! # C01 — hand strength ordering is exactly the poker hand ranking (both deck configurations)
 
 Model: `RP.Eval` (`strength cfg bits`, comparison key `strengthKey`, `compareHands`), written as
